@@ -31,7 +31,20 @@ def instances():
                 out.append(binop(name, cls, orc, a, b, ["C03", "C01", "C02", "C05"], tier="thorough", timeout=1200))
         for a, b in (("n", "i"), ("i", "n"), ("n", "n"), ("n", "d")):
             out.append(binop(name, cls, "ORC_NONE", a, b, ["C01", "C05"], tier="thorough"))
-    e = binop("exp", "OpEXPExpression", "ORC_EXP", "i", "i", ["C03", "C01", "C02", "C05"], timeout=900)
+    e = binop("exp", "OpEXPExpression", "ORC_EXP", "i", "i", ["C03", "C01", "C02", "C05"], timeout=600)
+    e.id = "op.exp.ii.neg"; e.defs = e.defs + ["VX_B_NEGATIVE=1"]
+    e.bounds = "all int64 bases, every negative exponent"
+    out.append(e)
+    for n in (0, 1, 2, 3, 5, 8, 13, 63, 64):
+        e = binop("exp", "OpEXPExpression", "ORC_EXP", "i", "i", ["C03", "C01", "C02", "C05"], timeout=600, tier="quick" if n in (0, 3, 13, 64) else "thorough")
+        e.id = "op.exp.ii.e%s" % str(n).replace("-", "m")
+        e.defs = e.defs + ["VX_FIX_B_I=%d" % n]
+        e.unwindset = ["_ZNK4bloc15OpEXPExpression5valueERNS_7ContextE.0:9"]
+        e.unwind = 66
+        e.bounds = "all int64 bases, exponent %d (instance parameter); value compared with the %d-fold product mod 2^64" % (n, n)
+        out.append(e)
+    e = binop("exp", "OpEXPExpression", "ORC_EXP", "i", "i", ["C03", "C01", "C02", "C05"], timeout=3600, tier="thorough")
+    e.id = "op.exp.ii.full"
     e.unwindset = ["_ZNK4bloc15OpEXPExpression5valueERNS_7ContextE.0:66"]
     e.bounds = "all int64 bases and exponents (64 rounds of square-and-multiply unwound); value asserted on algebraic anchor points"
     out.append(e)
